@@ -37,19 +37,27 @@ Theorem C09_cadence : forall pollp stop_at bypass g depth t rt ri,
   end.
 Proof. intros. apply search_cadence. Qed.
 
-(* the engine's predicate: every multiple of 16,384 = INPUT_POLL_INTERVAL + 1 nodes (hook polls only add more) *)
+(* the engine's predicate: the counter is tested against the mask INPUT_POLL_INTERVAL = 2^k - 1 (currently k = 14: every 16,384 nodes),
+   so every multiple of INPUT_POLL_INTERVAL + 1 below the final count was polled (hook polls only add more).  Stated with the constant as
+   it is in the source (regenerated on every run): still a theorem if the interval is retuned to another 2^k - 1. *)
+Lemma poll_mask_is_ones : INPUT_POLL_INTERVAL = N.ones (N.log2 (INPUT_POLL_INTERVAL + 1)).
+Proof. vm_compute. reflexivity. Qed.
 Theorem C09_polls_every_16384_nodes : forall extra stopk bypass g depth t rt ri,
   match c_search extra stopk bypass g depth t rt ri with
-  | SDone _ e _ => forall j, (16384 * j < nodes e)%N -> exists k s, In (EPoll k (16384 * j) s) (trace e)
+  | SDone _ e _ => forall j, ((INPUT_POLL_INTERVAL + 1) * j < nodes e)%N -> exists k s, In (EPoll k ((INPUT_POLL_INTERVAL + 1) * j) s) (trace e)
   | SFuel => True
   end.
 Proof.
   intros. unfold c_search. pose proof (C09_cadence (c_pollp extra) (c_stop_at stopk) bypass g depth t rt ri) as H.
   destruct (chess_search _ _ _ _ _ _ _ _) as [outs e s|]; [|exact I].
   intros j L. apply (H _ L). unfold c_pollp. apply orb_true_iff. left. apply N.eqb_eq.
-  change INPUT_POLL_INTERVAL with (N.ones 14). rewrite N.land_ones. change (2 ^ 14)%N with 16384%N.
-  rewrite N.mul_comm. apply N.mod_mul. discriminate.
+  rewrite poll_mask_is_ones at 2. rewrite N.land_ones.
+  assert (E : (INPUT_POLL_INTERVAL + 1 = 2 ^ N.log2 (INPUT_POLL_INTERVAL + 1))%N) by (vm_compute; reflexivity).
+  rewrite E at 1. rewrite N.mul_comm. apply N.mod_mul. apply N.pow_nonzero. discriminate.
 Qed.
+(* and the interval is a few tens of thousands of nodes at most *)
+Theorem C09_poll_interval_is_small : (INPUT_POLL_INTERVAL + 1 <= 65536)%N.
+Proof. vm_compute. discriminate. Qed.
 
 (* bounded work after the stop: in the trace of every search, at most 2 * MAX_PLY^2 = 8192 nodes of the main search are entered while
    the stop flag is set (a node entered with the flag set searches at most one child and returns; a frame whose child saw the stop
@@ -57,7 +65,7 @@ Qed.
 Definition entered_while_stopping (ev : event game move) : bool := match ev with ENode false _ _ _ _ _ _ true _ _ => true | _ => false end.
 Theorem C09_bounded_work_after_stop : forall pollp stop_at bypass g depth t rt ri,
   match chess_search pollp stop_at bypass g depth t rt ri with
-  | SDone _ e _ => (length (filter entered_while_stopping (trace e)) <= 2 * 64 * 64)%nat
+  | SDone _ e _ => (length (filter entered_while_stopping (trace e)) <= 2 * MAXPLY * MAXPLY)%nat
   | SFuel => True
   end.
 Proof. intros. apply search_prompt. Qed.
@@ -66,4 +74,5 @@ Print Assumptions C09_frame.
 Print Assumptions C09_frame_per_call.
 Print Assumptions C09_cadence.
 Print Assumptions C09_polls_every_16384_nodes.
+Print Assumptions C09_poll_interval_is_small.
 Print Assumptions C09_bounded_work_after_stop.
